@@ -1,16 +1,17 @@
 /-
   M-Index: model of `index()`, `__eq__`, `__hash__` of the IP-family NLRI classes and of
-  `Route.index()`.
+  `Route.index()`, as they are in /repo after commit 202850b ("NLRI index cannot be spelled two
+  ways; hash follows equality").
 
   Code modelled (read in /repo/src/exabgp):
     protocol/family.py            Family.index            f'{afi:02x}{safi:02x}'.encode()
     bgp/message/update/nlri/nlri.py   NLRI.__eq__         self.index() == other.index()
-    bgp/message/update/nlri/inet.py   INETBase.index      Family.index + (_packed | b'disabled' + _packed)
+    bgp/message/update/nlri/inet.py   INETBase.index      Family.index + (b'path' + _packed | b'disabled' + _packed)
                                       INETBase.__hash__   hash(_packed | b'disabled' + _packed)
-    bgp/message/update/nlri/label.py  LabelBase.index     Family.index + (b'no-pi' | b'disabled' | path) + [mask] + cidr.pack_ip()
-                                      LabelBase.__hash__  as INET (labels ARE in _packed)
-    bgp/message/update/nlri/ipvpn.py  IPVPNBase.index     Family.index + tag + [rd_bits + mask] + rd + cidr.pack_ip()
-                                      IPVPNBase.__hash__  as INET
+    bgp/message/update/nlri/label.py  LabelBase.index     Family.index + (b'no-pi' | b'disabled' | b'path' + path) + [mask] + cidr.pack_ip()
+                                      LabelBase.__hash__  hash(self.index())
+    bgp/message/update/nlri/ipvpn.py  IPVPNBase.index     Family.index + tag + [rd_bits + mask] + (b'\x01' | b'\x00') + rd + cidr.pack_ip()
+                                      IPVPNBase.__hash__  hash(self.index())
     rib/route.py                      Route.index         b'%02x%02x' % (afi, safi) + nlri.index()
 
   An NLRI is the abstract record of what its `_packed` holds. `path = none` is
@@ -23,6 +24,9 @@
   has afi 1 or 2), a path-id is 4 bytes, an RD is 8 bytes, the prefix has `ceil(mask/8)` bytes,
   mask ≤ 128, and INET carries no labels / RD, Label no RD. Outside the guard the real code raises
   (`bytes([mask])` with mask > 255, `CIDR.pack_ip` assertion) or cannot build the object.
+
+  `indexOld` / `hashKeyOld` are the encoding before that commit (finding F15): kept so that the
+  collisions it had stay on record as examples in `Props/C15.lean`.
 -/
 import ExaModel.Bytes
 
@@ -48,6 +52,8 @@ deriving DecidableEq, Repr
 def disabled : Bytes := [100, 105, 115, 97, 98, 108, 101, 100]
 /-- `b'no-pi'` -/
 def nopi : Bytes := [110, 111, 45, 112, 105]
+/-- `b'path'` -/
+def pathWord : Bytes := [112, 97, 116, 104]
 
 def hexDigit (n : Nat) : Nat := if n < 10 then 48 + n else 87 + n
 
@@ -71,21 +77,38 @@ def rdBits (a : IpNlri) : Nat := if a.rd.isSome then 64 else 0
 def packed (a : IpNlri) : Bytes :=
   optBytes a.path ++ [a.labels.length * 8 + rdBits a + a.mask] ++ a.labels ++ optBytes a.rd ++ a.pfx
 
-/-- The ADD-PATH part of `Label.index` / `IPVPN.index`. -/
-def pathTag : Option Bytes → Bytes
+/-- The ADD-PATH tag of the index. The three tags start with different bytes (`d`, `n`, `p`) and
+    each has a fixed length once its first byte is known: a prefix-free code. INET has no `no-pi`
+    form (its `_packed` simply starts with the four zero bytes). -/
+def pathTag (k : Kind) : Option Bytes → Bytes
   | none => disabled
-  | some p => if p = [0, 0, 0, 0] then nopi else p
+  | some p => if k ≠ .inet ∧ p = [0, 0, 0, 0] then nopi else pathWord ++ p
 
-/-- `nlri.index()` (dynamic dispatch on the class). -/
+/-- `IPVPN.index`: one byte after the mask says whether an RD follows. -/
+def rdFlag (a : IpNlri) : Bytes :=
+  match a.kind with
+  | .vpn => [if a.rd.isSome then 1 else 0]
+  | _ => []
+
+/-- The index in one formula for the three classes (equal to `index` under the guard:
+    `Lemmas/Index.lean: index_eq_uniform`). -/
+def indexU (a : IpNlri) : Bytes :=
+  famIndex a.afi a.safi ++ pathTag a.kind a.path ++ [rdBits a + a.mask] ++ rdFlag a ++ optBytes a.rd ++ a.pfx
+
+/-- `nlri.index()` (dynamic dispatch on the class), as each class writes it. -/
 def index (a : IpNlri) : Bytes :=
   match a.kind with
-  | .inet => famIndex a.afi a.safi ++ (if a.path.isSome then packed a else disabled ++ packed a)
-  | .label => famIndex a.afi a.safi ++ pathTag a.path ++ [a.mask] ++ a.pfx
-  | .vpn => famIndex a.afi a.safi ++ pathTag a.path ++ [rdBits a + a.mask] ++ optBytes a.rd ++ a.pfx
+  | .inet => famIndex a.afi a.safi ++ (if a.path.isSome then pathWord ++ packed a else disabled ++ packed a)
+  | .label => famIndex a.afi a.safi ++ pathTag .label a.path ++ [a.mask] ++ a.pfx
+  | .vpn => famIndex a.afi a.safi ++ pathTag .vpn a.path ++ [rdBits a + a.mask]
+              ++ [if a.rd.isSome then 1 else 0] ++ optBytes a.rd ++ a.pfx
 
-/-- The bytes `__hash__` hashes (the same code in the three classes). -/
+/-- The bytes `__hash__` hashes: INET its `_packed` (with the sentinel when there is no path-id),
+    Label and IPVPN their index. -/
 def hashKey (a : IpNlri) : Bytes :=
-  if a.path.isSome then packed a else disabled ++ packed a
+  match a.kind with
+  | .inet => if a.path.isSome then packed a else disabled ++ packed a
+  | _ => index a
 
 /-- `NLRI.__eq__` -/
 def nlriEq (a b : IpNlri) : Bool := index a == index b
@@ -119,31 +142,23 @@ deriving DecidableEq, Repr
 
 def key (a : IpNlri) : Key := ⟨a.afi, a.safi, a.path, a.mask, a.pfx, a.rd⟩
 
-/-- `b'disa'`, `b'no-p'`: the two path identifiers that make the sentinel ambiguous. -/
+/-! ### The encoding before commit 202850b (finding F15), for the record -/
+
+/-- `b'disa'`, `b'no-p'`: the two path identifiers that made the sentinels ambiguous. -/
 def disa : Bytes := [100, 105, 115, 97]
 def nop : Bytes := [110, 111, 45, 112]
 
-/-! ### The repaired encoding (proposed_fixes/F15-index-collision.md)
-
-  The ASCII sentinels are kept (`b'disabled'`, `b'no-pi'`) and an explicit path identifier is
-  introduced by `b'path'`: the three tags start with different bytes (`d`, `n`, `p`) and each has a
-  fixed length once its first byte is known, so they form a prefix-free code. IPVPN adds one byte
-  after the mask saying whether an RD follows. Labels stay out of the index, as today. -/
-def pathWord : Bytes := [112, 97, 116, 104]
-
-def tagFix (k : Kind) : Option Bytes → Bytes
+def pathTagOld : Option Bytes → Bytes
   | none => disabled
-  | some p => if k ≠ .inet ∧ p = [0, 0, 0, 0] then nopi else pathWord ++ p
+  | some p => if p = [0, 0, 0, 0] then nopi else p
 
-def rdFlag (a : IpNlri) : Bytes :=
+def indexOld (a : IpNlri) : Bytes :=
   match a.kind with
-  | .vpn => [if a.rd.isSome then 1 else 0]
-  | _ => []
+  | .inet => famIndex a.afi a.safi ++ (if a.path.isSome then packed a else disabled ++ packed a)
+  | .label => famIndex a.afi a.safi ++ pathTagOld a.path ++ [a.mask] ++ a.pfx
+  | .vpn => famIndex a.afi a.safi ++ pathTagOld a.path ++ [rdBits a + a.mask] ++ optBytes a.rd ++ a.pfx
 
-def indexFix (a : IpNlri) : Bytes :=
-  famIndex a.afi a.safi ++ tagFix a.kind a.path ++ [rdBits a + a.mask] ++ rdFlag a ++ optBytes a.rd ++ a.pfx
-
-/-- The repaired `__hash__` of Label / IPVPN: `hash(self.index())`. -/
-def hashKeyFix (a : IpNlri) : Bytes := indexFix a
+def hashKeyOld (a : IpNlri) : Bytes :=
+  if a.path.isSome then packed a else disabled ++ packed a
 
 end Exa.Index
